@@ -1,4 +1,5 @@
 """C09 — the command stream sent at deploy is exactly the patch that was shown.  See DESIGN.md §C09."""
+import itertools
 import os
 import re
 from collections import OrderedDict as odict
@@ -46,6 +47,7 @@ COMMON = [S(["a"]), S(["undo a2"]), S(["b 1"], [S(["c"]), S(["d 1"], [S(["e"], [
 SPECIAL = {
     "huawei": [S(["xpl route-filter F"], [S(["if x then"], [S(["apply y"])]), S(["if y then"], [S(["apply z"])]), S(["else"], [S(["refuse"])])]),
                S(["xpl ip-prefix-list L"], [S(["10.0.0.0 8"])]),
+               S(["xpl as-path-list A"], [S(["ios-regex 1"])]),
                S(["rsa peer-public-key k"], [S(["public-key-code begin"], [S(["AAAA"])])])],
     "cisco": [S(["router bgp 1"], [S(["address-family ipv4"], [S(["network x"])]), S(["neighbor y"])])],
     "asr": [S(["route-policy P"], [S(["if a then"], [S(["pass"])]), S(["drop"])]), S(["prefix-set S"], [S(["1.1.1.1/32"])])],
@@ -289,6 +291,74 @@ def h_made(case: int) -> bool:
     return ok or rt.is_known(fp)
 
 
+# ---------------------------------------------------------------- commands under different session wrappers (%apply_logic)
+GROUP_DEPLOY = "a\nk * %apply_logic=aruba.ap_env.apply\nm\n"
+GROUP_ROWS = ["a", "k 1", "m", "k 2"]
+GROUP_PERMS = list(itertools.permutations(range(4)))
+GROUP_HW = ["Cisco Catalyst", "Huawei CE6870", "Aruba"]
+NG = len(GROUP_PERMS) * 4 * len(GROUP_HW)
+
+
+def check_groups(hi, pi, fl):
+    """commands governed by different apply logics are sent in the displayed order, each maximal run inside its own wrapper"""
+    import annet.deploy as dep
+    from annet.annlib.netdev.views.hardware import HardwareView
+    from annet.annlib.patching import PatchTree
+    from annet.annlib.rulebook import common
+    from annet.rulebook.aruba import ap_env
+    from annet.rulebook.deploying import compile_deploying_text
+    from annet.vendors import registry_connector
+    hw = HardwareView(GROUP_HW[hi], None)
+    fmt = registry_connector.get().match(hw).make_formatter()
+    do_commit, do_finalize = bool(fl & 1), bool(fl & 2)
+    rows = [GROUP_ROWS[i] for i in GROUP_PERMS[pi]]
+    pt = PatchTree()
+    for r in rows:
+        pt.add(r, {})
+    rules = {"deploying": compile_deploying_text(GROUP_DEPLOY, hw.vendor)}
+    saved = dep.get_rulebook
+    dep.get_rulebook = lambda hw_: rules
+    try:
+        got = [x.cmd for x in dep.apply_deploy_rulebook(hw, fmt.cmd_paths(pt), do_finalize=do_finalize, do_commit=do_commit)]
+    except Exception as e:  # noqa
+        return False, {"error": repr(e)}, "groups:exception:%s" % type(e).__name__, True
+    finally:
+        dep.get_rulebook = saved
+
+    def wrap(row):
+        fn = ap_env.apply if row.startswith("k ") else common.apply
+        b, a = fn(hw, do_commit=do_commit, do_finalize=do_finalize)
+        return tuple(x.cmd for x in b), tuple(x.cmd for x in a)
+    want = []
+    i = 0
+    while i < len(rows):
+        w = wrap(rows[i])
+        j = i
+        while j < len(rows) and wrap(rows[j]) == w:
+            j += 1
+        want.extend(w[0])
+        want.extend(rows[i:j])
+        want.extend(w[1])
+        i = j
+    if got != want:
+        return False, {"hw": GROUP_HW[hi], "shown_order": rows, "sent": got, "want": want, "do_commit": do_commit,
+                       "do_finalize": do_finalize}, "groups:sent-stream-differs", True
+    return True, None, None, True
+
+
+def h_groups(case: int) -> bool:
+    """
+    pre: 0 <= case < NG
+    post: _ == True
+    """
+    c = pick(case, NG)
+    with NoTracing():
+        hi, pi, fl = digits(c, [len(GROUP_HW), len(GROUP_PERMS), 4])
+        ok, detail, kind, nt = check_groups(hi, pi, fl)
+        rt.record({"groups": [hi, pi, fl]}, ok, [hi, pi, fl], detail=detail, fingerprint="C09:%s" % kind)
+    return ok
+
+
 ALLHW = ["Huawei CE6870", "Huawei NE40E", "Huawei S5700", "Arista", "Cisco ASR", "Cisco XRV", "Cisco Catalyst", "Cisco Nexus",
          "Juniper", "PC", "Nokia", "RouterOS", "Aruba", "Ribbon", "B4com CS2148P", "B4com", "H3C"]
 
@@ -345,6 +415,7 @@ def plan(tier):
     for vi, (name, _) in enumerate(VENDORS):
         obs.append(dict(name="stream[%s]" % name, func="h_stream", shards=8, timeout=280 if q else 1500, env={"VT_VENDOR": vi}))
     obs.append(dict(name="made.by.make_patch", func="h_made", shards=4, timeout=280 if q else 900))
+    obs.append(dict(name="apply.groups", func="h_groups", shards=1, timeout=200))
     obs.append(dict(name="twin", func="h_twin", shards=1, timeout=100, expect="refuted"))
     return obs
 
@@ -361,6 +432,9 @@ def replay(obligation, case):
         if not case["do_finalize"] and any(c.startswith(("save", "write", "copy running-config")) for c in cmds):
             kind = "save-sent-although-finalize-disabled"
         return {"ok": kind is None, "detail": {"cmds": cmds}, "fingerprint": "C09:wrapper:%s" % kind}
+    if "groups" in case:
+        ok, detail, kind, _ = check_groups(*case["groups"])
+        return {"ok": ok, "detail": detail, "fingerprint": "C09:%s" % kind}
     if case.get("made"):
         ok, detail, kind, _ = check_made(case["vendor"], unrank(MADE_SLOTS, case["i"]), unrank(MADE_SLOTS, case["j"]))
         return {"ok": ok, "detail": detail, "fingerprint": "C09:make_patch:%s" % kind}
